@@ -17,6 +17,7 @@ import (
 	"os"
 	"os/exec"
 	"runtime"
+	"strings"
 	"sync"
 	"time"
 )
@@ -122,13 +123,31 @@ func workerMain(kind string) {
 	os.RemoveAll(dir)
 }
 
+// ring keeps the end of a worker's stderr and, separately, the beginning of its last crash report ("panic: ..." /
+// "fatal error: ..." and what follows): with every goroutine dumped, the reason is far above the last 8 KiB.
 type ring struct {
-	mu  sync.Mutex
-	buf []byte
+	mu      sync.Mutex
+	buf     []byte
+	crash   []byte
+	inCrash bool
 }
 
 func (r *ring) Write(p []byte) (int, error) {
 	r.mu.Lock()
+	if !r.inCrash {
+		for _, m := range []string{"fatal error: ", "panic: "} {
+			if i := bytes.Index(p, []byte(m)); i >= 0 && (i == 0 || p[i-1] == '\n') {
+				r.inCrash, r.crash = true, nil
+				r.crash = append(r.crash, p[i:]...)
+				break
+			}
+		}
+	} else if len(r.crash) < 2500 {
+		r.crash = append(r.crash, p...)
+	}
+	if len(r.crash) > 2500 {
+		r.crash = r.crash[:2500]
+	}
 	r.buf = append(r.buf, p...)
 	if len(r.buf) > 8192 {
 		r.buf = r.buf[len(r.buf)-8192:]
@@ -140,6 +159,13 @@ func (r *ring) String() string {
 	r.mu.Lock()
 	defer r.mu.Unlock()
 	return string(r.buf)
+}
+
+// CrashHead returns the beginning of the last crash report, if any.
+func (r *ring) CrashHead() string {
+	r.mu.Lock()
+	defer r.mu.Unlock()
+	return string(r.crash)
 }
 
 type child struct {
@@ -307,7 +333,7 @@ func runMain(kind string, args []string) {
 						"scn":     json.RawMessage(line),
 						"crashed": !to,
 						"hung":    to,
-						"stderr":  tail(st, 3000),
+						"stderr":  crashText(cc.stderr.CrashHead(), tail(st, 3000)),
 					}
 					if death != nil {
 						obs["death"] = death
@@ -354,6 +380,14 @@ func runMain(kind string, args []string) {
 	out.Flush()
 	outF.Close()
 	fmt.Printf("{\"cases\":%d,\"crashed\":%d,\"hung\":%d,\"retried\":%d}\n", n, crashed, timedOut, retried)
+}
+
+// crashText: the reason of a crash first, then the end of the output (unless the end already contains the reason).
+func crashText(head, end string) string {
+	if head == "" || strings.Contains(end, head[:min(len(head), 60)]) {
+		return end
+	}
+	return head[:min(len(head), 1200)] + "\n[...]\n" + end
 }
 
 func tail(s string, n int) string {
